@@ -178,7 +178,7 @@ func run(cfg RunConfig, pkgPaths []string) (*RunOutput, error) {
 			}
 			// vacuity guard: a planted `assert false` at the function's exits must not be provable
 			if len(g.retBlocks) > 0 {
-				v := &Obl{Name: g.name + "/vacuity:exit-reachable", Kind: "vacuity", Hyp: or(g.retBlocks...), Goal: "false", NDefs: len(g.defs), Fn: g.name, Vacuity: true, Props: con.Props}
+				v := &Obl{Name: g.name + "/vacuity:exit-reachable", Kind: "vacuity", Hyp: or(g.retBlocks...), Goal: "false", SkGoal: "false", NDefs: len(g.defs), Fn: g.name, Vacuity: true, Props: con.Props}
 				jobs = append(jobs, job{g, v})
 			}
 		}
